@@ -1,0 +1,29 @@
+//go:build verif
+
+// Contracts for the verifier in /verif (comment-only file; contributes no declarations).
+package vacuum
+
+// The vacuum's own locking (entriesMutex / mapMutex) is a C18 matter; these contracts are sequential.
+
+//@ func (*MapVacuum).VacuumKey
+//@   prop C11
+//@   mode seq
+//@   requires mapVacuum.clock != nil && mapVacuum.entriesMutex != nil
+//@   modifies mapVacuum.entries, mapVacuum.active, now
+//@   spawn modifies heap
+//@   ensures[appended]  len(mapVacuum.entries) == old(len(mapVacuum.entries)) + 1 && mapVacuum.entries[old(len(mapVacuum.entries))].keyToVacuum == keyToVacuum
+//@   ensures[due-after-ttl] mapVacuum.entries[old(len(mapVacuum.entries))].vacuumAt >= old(now()) + mapVacuum.ttl && mapVacuum.entries[old(len(mapVacuum.entries))].vacuumAt <= now() + mapVacuum.ttl
+//@   ensures[prefix-kept] forall(j, 0, old(len(mapVacuum.entries)), mapVacuum.entries[j] == old(mapVacuum.entries)[j])
+
+//@ func (*MapVacuum).vacuum
+//@   prop C11
+//@   mode seq
+//@   requires mapVacuum.clock != nil && mapVacuum.entriesMutex != nil && mapVacuum.mapMutex != nil
+//@   modifies mapVacuum.entries, mapof(mapVacuum.mapToVacuum), now
+//@   loop 1 modifies mapof(mapVacuum.mapToVacuum)
+//@   loop 1 invariant[count]   deleteUntil == idx1 && 0 <= idx1 && idx1 <= len(mapVacuum.entries)
+//@   loop 1 invariant[expired] forall(j, 0, idx1, mapVacuum.entries[j].vacuumAt < now)
+//@   loop 1 invariant[only-listed] forall(k, K, old(in(k, mapVacuum.mapToVacuum)) && !in(k, mapVacuum.mapToVacuum) ==> exists(j, 0, idx1, mapVacuum.entries[j].keyToVacuum == k))
+//@   loop 1 invariant[never-adds] forall(k, K, in(k, mapVacuum.mapToVacuum) ==> old(in(k, mapVacuum.mapToVacuum)) && mapVacuum.mapToVacuum[k] == old(mapVacuum.mapToVacuum[k]))
+//@   ensures[only-expired] forall(k, K, old(in(k, mapVacuum.mapToVacuum)) && !in(k, mapVacuum.mapToVacuum) ==> exists(j, 0, old(len(mapVacuum.entries)), old(mapVacuum.entries)[j].keyToVacuum == k && old(mapVacuum.entries)[j].vacuumAt < now()))
+//@   ensures[never-adds]   forall(k, K, in(k, mapVacuum.mapToVacuum) ==> old(in(k, mapVacuum.mapToVacuum)) && mapVacuum.mapToVacuum[k] == old(mapVacuum.mapToVacuum[k]))
